@@ -7,6 +7,8 @@ import (
 	"strconv"
 	"strings"
 
+	"github.com/caddyserver/caddy/v2/modules/caddyhttp"
+
 	"verif/harness/internal/core"
 )
 
@@ -308,6 +310,11 @@ func (p *prop) judge(k *kase, sel string, rcd *rec, res *scriptResult, o *core.O
 						ok = ok || h.Matcher.Match(op.status, mh)
 					}
 				}
+				if !ok && rcd.sent && rcd.status == 200 {
+					// a handler that never called WriteHeader answers 200; the code asks the matcher about
+					// status 0 in that case (kept in the model) — either reading permits the encoding
+					ok = h.Matcher.Match(200, mh)
+				}
 				if !ok && hasStatus(k.ops, 304) {
 					ok = h.Matcher.Match(0, refHdr) || h.Matcher.Match(304, refHdr)
 				}
@@ -393,6 +400,11 @@ func (p *prop) judge(k *kase, sel string, rcd *rec, res *scriptResult, o *core.O
 		}
 	}
 
+	// ---- 7b. two encode handlers stacked (a site and a snippet both saying `encode`): still ONE coding
+	if sel != "-" && wb && !noBodyStatus && refHdr.Get("Content-Encoding") == "" && len(expected) > 0 && len(expected) <= 1<<20 {
+		p.judgeStacked(k, expected, fail)
+	}
+
 	// ---- 8. end to end through a real net/http server and client
 	p.judgeServer(k, sel, wb, bypass, o)
 }
@@ -408,4 +420,56 @@ func firstDiff(a, b []byte) int {
 		}
 	}
 	return n
+}
+
+// judgeStacked runs the script behind TWO encode handlers of the same configuration and decodes once.
+func (p *prop) judgeStacked(k *kase, expected []byte, fail func(class, format string, a ...any)) {
+	outer, err1 := buildHandler(k.enc, k.prefer, k.min, k.m, k.mkey, true)
+	inner, err2 := buildHandler(k.enc, k.prefer, k.min, k.m, k.mkey, false)
+	if err1 != nil || err2 != nil {
+		return
+	}
+	r := newRec()
+	res := &scriptResult{}
+	script := caddyhttp.HandlerFunc(func(w http.ResponseWriter, _ *http.Request) error {
+		replay(k.ops, w, res)
+		return nil
+	})
+	mid := caddyhttp.HandlerFunc(func(w http.ResponseWriter, req *http.Request) error {
+		return inner.ServeHTTP(w, req, script)
+	})
+	if err := outer.ServeHTTP(r, k.request(), mid); err != nil {
+		return
+	}
+	hdr := sentOrLive(r)
+	ces := hdr.Values("Content-Encoding")
+	if len(ces) > 1 || (len(ces) == 1 && strings.Contains(ces[0], ",")) {
+		fail("double-encoding", "[two encode handlers stacked] Content-Encoding %q", ces)
+		return
+	}
+	wire := r.plain.Bytes()
+	if r.encOut.Len() > 0 {
+		if r.plain.Len() > 0 {
+			fail("mixed-stream", "[two encode handlers stacked] %d plain and %d encoded bytes in one response", r.plain.Len(), r.encOut.Len())
+			return
+		}
+		wire = r.encOut.Bytes()
+	}
+	if len(ces) == 0 || ces[0] == "" {
+		if !bytes.Equal(wire, expected) {
+			fail("plain-body-differs", "[two encode handlers stacked] no Content-Encoding, %d bytes received, %d written", len(wire), len(expected))
+		}
+		return
+	}
+	dec, err := decodeBody(ces[0], wire)
+	switch {
+	case err != nil:
+		fail("undecodable", "[two encode handlers stacked] Content-Encoding %s, %d bytes do not decode: %v", ces[0], len(wire), err)
+	case !bytes.Equal(dec, expected):
+		if _, e2 := decodeBody(ces[0], dec); e2 == nil {
+			fail("double-encoding", "[two encode handlers stacked] decoding %s once yields another %s stream", ces[0], ces[0])
+		} else {
+			fail("decoded-body-differs", "[two encode handlers stacked] %s decodes to %d bytes, %d written", ces[0], len(dec), len(expected))
+		}
+	}
 }
